@@ -51,6 +51,8 @@ RULES_REQUIRED = [
     'mutation_nbpp_falsifies_sicdSegOk', 'mutation_icat_falsifies_sicdSegOk', 'mutation_pvtype_falsifies_sicdSegOk',
     'sicd_band_rule_accepts_one_wrong_code', 'mutation_both_bands_falsify_sicdSegOk',
     'writer_satisfies_sizeRule', 'mutation_numrows_falsifies_sizeRule', 'writer_satisfies_siddSegOk', 'mutation_pixeltype_falsifies_siddSegOk',
+    'writer_satisfies_sicdScan', 'mutation_no_sicd_des_falsifies_sicdScan', 'mutation_second_sicd_des_falsifies_sicdScan',
+    'mutation_sidd_des_falsifies_sicdScan', 'writer_satisfies_siddFound',
 ]
 
 # bridge theorem -> the translated rule / table it ties
@@ -765,6 +767,35 @@ def edited_xml(template, edits, seed):
 # ======================================================================================================================
 # SICD / SIDD image-segment rules on the bytes of a NITF, read with the independent parser
 # ======================================================================================================================
+def nitf_des_kinds(buf):
+    """the data extension segments of a NITF as the DES scan of the checkers classifies them (independent parser + root tag by regex)"""
+    try:
+        problems, summ = nitfparse.check_structure(buf)
+        if summ is None:
+            return None
+        out = []
+        for k, i, off, sub, dat in summ['layout']:
+            if k != 'des':
+                continue
+            desid = nitfparse.parse_des_subheader(buf, off, sub)['DESID'].strip()
+            body = buf[off + sub:off + sub + min(dat, 600)]
+            m = re.match(rb'\s*(?:<\?xml[^>]*\?>\s*)?(?:<!--.*?-->\s*)*<(?:\w+:)?(\w+)', body, re.S)
+            root = m.group(1) if m else b''
+            ns = re.search(rb'xmlns(?::\w+)?="([^"]*)"', body)
+            root += b' ' + (ns.group(1) if ns else b'')        # the checkers look for the family name in the namespace-qualified root tag
+            if desid == b'XML_DATA_CONTENT':
+                out.append('sicd' if b'SICD' in root else 'sidd' if b'SIDD' in root else 'oxml')
+            elif desid == b'SICD_XML':
+                out.append('oldsicd' if b'SICD' in root else 'other')
+            elif desid == b'SIDD_XML':
+                out.append('oldsidd')
+            else:
+                out.append('other')
+        return out
+    except Exception:
+        return None
+
+
 def nitf_image_lines(kind, buf):
     """-> dict(lines=[driver lines per SAR segment], oracle=[bool], size_line, size_oracle) or None"""
     try:
